@@ -414,11 +414,125 @@ func (c10) Gen(r *rand.Rand, tier string, i int) any {
 			return c10Case{Kind: "source", Input: []byte(text), Via: "declaration-unit"}
 		}
 		seed = []byte(text)
+	case 6:
+		// rules whose transform statements and built-in premises are put together at random from a small pool of
+		// variables: group keys defined by later statements, reducers over undefined variables, negated built-ins,
+		// variables where a selector constant is expected
+		text := c10TransformUnit(r)
+		if r.Intn(2) == 0 {
+			return c10Case{Kind: "source", Input: []byte(text), Via: "transform-unit"}
+		}
+		seed = []byte(text)
 	default:
 		seed = c10Seeds[r.Intn(len(c10Seeds))]
 	}
 	b, how := c10Mutate(r, seed)
 	return c10Case{Kind: "source", Input: b, Via: how}
+}
+
+func c10TransformUnit(r *rand.Rand) string {
+	vars := []string{"X", "Y", "Z", "W", "_"}
+	v := func() string { return vars[r.Intn(len(vars))] }
+	term := func() string {
+		switch r.Intn(6) {
+		case 0:
+			return []string{"1", "/a", "\"s\"", "[1, 2]", "{/f: 1}", "[/k: 1]", "fn:pair(1, 2)"}[r.Intn(7)]
+		case 1:
+			return "fn:plus(" + v() + ", 1)"
+		}
+		return v()
+	}
+	var sb strings.Builder
+	sb.WriteString("tb(1, 2). tb(2, 3). tl([1, 2]). ts({/f: 1}). tm([/k: 1]).\n")
+	for k := r.Intn(3); k > 0; k-- {
+		// a safe two-column body; everything else (head, group keys, defined variables, reducer arguments) is drawn
+		// from {A, B, K, R}: keys defined by later statements, statements using what nothing defines, redefinitions
+		pool := []string{"A", "B", "K", "R"}
+		pv := func() string { return pool[r.Intn(len(pool))] }
+		head := "tt(" + pv() + ")"
+		if r.Intn(2) == 0 {
+			head = "tt(" + pv() + ", " + pv() + ")"
+		}
+		var st []string
+		if r.Intn(4) > 0 {
+			ks := make([]string, r.Intn(3))
+			for i := range ks {
+				ks[i] = pv()
+			}
+			st = append(st, "do fn:group_by("+strings.Join(ks, ", ")+")")
+		}
+		for j := 1 + r.Intn(2); j > 0; j-- {
+			fn := []string{"fn:count()", "fn:sum(" + pv() + ")", "fn:max(" + pv() + ")", "fn:collect(" + pv() + ")", "fn:plus(" + pv() + ", " + pv() + ")", "fn:min(" + pv() + ")", "fn:plus(" + pv() + ", 1)"}[r.Intn(7)]
+			st = append(st, "let "+pv()+" = "+fn)
+		}
+		sb.WriteString(head + " :- tb(A, B) |> " + strings.Join(st, ", ") + ".\n")
+	}
+	nrand := 1 + r.Intn(3)
+	if r.Intn(2) == 0 {
+		nrand = 0 // most free-form rules are rejected by analysis and take the whole unit with them
+	}
+	for k := nrand; k > 0; k-- {
+		// the variables the transform will define are drawn first, so that head and group keys can refer to them
+		lets := []string{v(), v()}
+		hv := func() string {
+			if r.Intn(2) == 0 {
+				return lets[r.Intn(2)]
+			}
+			return v()
+		}
+		head := "th(" + hv() + ")"
+		if r.Intn(3) == 0 {
+			head = "th(" + hv() + ", " + hv() + ")"
+		}
+		var body []string
+		for j := 1 + r.Intn(3); j > 0; j-- {
+			neg := ""
+			if r.Intn(4) == 0 {
+				neg = "!"
+			}
+			switch r.Intn(9) {
+			case 0:
+				body = append(body, neg+"tb("+term()+", "+term()+")")
+			case 1:
+				body = append(body, neg+"tl("+term()+")")
+			case 2:
+				body = append(body, neg+":match_field("+term()+", "+term()+", "+term()+")")
+			case 3:
+				body = append(body, neg+":match_entry("+term()+", "+term()+", "+term()+")")
+			case 4:
+				body = append(body, neg+":match_cons("+term()+", "+term()+", "+term()+")")
+			case 5:
+				body = append(body, neg+":list:member("+term()+", "+term()+")")
+			case 6:
+				body = append(body, neg+":match_pair("+term()+", "+term()+", "+term()+")")
+			case 7:
+				body = append(body, neg+"ts("+term()+")")
+			default:
+				body = append(body, term()+" = "+term())
+			}
+		}
+		sb.WriteString(head + " :- " + strings.Join(body, ", "))
+		if r.Intn(3) > 0 {
+			var st []string
+			if r.Intn(3) > 0 {
+				n := r.Intn(3)
+				ks := make([]string, n)
+				for i := range ks {
+					ks[i] = hv()
+				}
+				st = append(st, "do fn:group_by("+strings.Join(ks, ", ")+")")
+			}
+			for j := r.Intn(3); j > 0; j-- {
+				fn := []string{"fn:count()", "fn:sum(" + v() + ")", "fn:max(" + v() + ")", "fn:collect(" + v() + ")", "fn:collect_distinct(" + v() + ")", "fn:plus(" + v() + ", " + v() + ")", "fn:count(" + v() + ")", "fn:avg(" + v() + ")", "fn:pick_any(" + v() + ")", "fn:collect_to_map(" + v() + ", " + v() + ")"}[r.Intn(10)]
+				st = append(st, "let "+lets[j%2]+" = "+fn)
+			}
+			if len(st) > 0 {
+				sb.WriteString(" |> " + strings.Join(st, ", "))
+			}
+		}
+		sb.WriteString(".\n")
+	}
+	return sb.String()
 }
 
 var c10Descr = []string{"doc(\"d\")", "doc()", "arg(X, \"first\")", "arg(Q, \"no such\")", "mode('+', '-')", "mode('+')", "mode('-', '-', '+')", "mode('?', '+')", "mode(1)",
@@ -428,7 +542,9 @@ var c10Descr = []string{"doc(\"d\")", "doc()", "arg(X, \"first\")", "arg(Q, \"no
 
 var c10BoundTypes = []string{"/any", "/number", "/string", "/name", "/a", "/a/b", "fn:List(/number)", ".List</string>", "fn:Pair(/name, /number)", "fn:Map(/string, /any)", "fn:Struct(/f, /number)",
 	"fn:Struct(/f, /number, fn:opt(/g, /string))", "fn:Union(/a, /number)", "fn:Union()", "fn:Singleton(/a/b)", "fn:Tuple(/number, /number, /number)", "fn:Option(/number)", "fn:List()", "fn:Pair(/number)",
-	"fn:Fun(/number, /number)", "fn:Rel(/number)", "X", "1", "\"s\"", "fn:plus(1, 2)", "/time", "/duration", "/float64", "/bytes", "fn:TaggedUnion(/kind, /a, fn:Struct(/f, /number))"}
+	"fn:Fun(/number, /number)", "fn:Rel(/number)", "fn:Struct(fn:opt())", "fn:Struct(fn:opt(/a))", "fn:Struct(/a)", "fn:Struct(/a, /number, /b)", "fn:Struct(fn:opt(/a, /number, /b))", "fn:Map(/string)", ".Map</string>", ".Pair</number>", ".List<>", ".Struct</a: .List<>>", ".Map<>", ".Pair<>", ".Singleton<>", ".Option<>", ".List</number, /string>", ".Pair</a, /b, /c>", ".Map</string>", ".Pair</number>", ".List<>", ".Union<>", ".Tuple</number>",
+	".List<.Pair</number>>", ".Map</string, .List<>>",
+	"fn:opt(/a, /number)", "fn:TaggedUnion(/kind)", "fn:TaggedUnion()", "fn:Singleton()", "fn:Singleton(1, 2)", "fn:Tuple()", "fn:Union(fn:Union())", "fn:List(fn:opt(/a, /b))", "X", "1", "\"s\"", "fn:plus(1, 2)", "/time", "/duration", "/float64", "/bytes", "fn:TaggedUnion(/kind, /a, fn:Struct(/f, /number))"}
 
 func c10DeclUnit(r *rand.Rand) string {
 	ar := r.Intn(4)
@@ -438,17 +554,23 @@ func c10DeclUnit(r *rand.Rand) string {
 	if r.Intn(4) == 0 {
 		sb.WriteString("mrg(A, B, C) :- A < B, C = B. mrg(A, B, C) :- B <= A, C = A.\n")
 	}
+	colTypes := make([]string, ar) // a declared type per column, so that some facts have the shape the type talks about
+	clean := r.Intn(2) == 0 // nothing but one bound row of the right length: the types themselves are what is tried
 	sb.WriteString("Decl " + head)
-	if r.Intn(3) > 0 {
+	if r.Intn(3) > 0 && !clean {
 		var ds []string
 		for k := 1 + r.Intn(3); k > 0; k-- {
 			ds = append(ds, c10Descr[r.Intn(len(c10Descr))])
 		}
 		sb.WriteString(" descr [" + strings.Join(ds, ", ") + "]")
 	}
-	for k := r.Intn(3); k > 0; k-- {
+	nrows := r.Intn(3)
+	if clean {
+		nrows = 1
+	}
+	for k := nrows; k > 0; k-- {
 		n := ar
-		switch r.Intn(6) {
+		switch r.Intn(6) + map[bool]int{true: 2, false: 0}[clean] {
 		case 0:
 			n = ar + 1 + r.Intn(2)
 		case 1:
@@ -459,21 +581,40 @@ func c10DeclUnit(r *rand.Rand) string {
 		row := make([]string, n)
 		for j := range row {
 			row[j] = c10BoundTypes[r.Intn(len(c10BoundTypes))]
+			if j < ar {
+				colTypes[j] = row[j]
+			}
 		}
 		sb.WriteString(" bound [" + strings.Join(row, ", ") + "]")
 	}
-	if r.Intn(5) == 0 {
+	if r.Intn(5) == 0 && !clean {
 		sb.WriteString(" inclusion [" + []string{"dq(X)", "dp(X)", "dq(X), dq(Y)", "nosuch(X)", ":lt(X, 3)"}[r.Intn(5)] + "]")
 	}
 	sb.WriteString(".\n")
 	if r.Intn(4) == 0 {
 		sb.WriteString("Decl dq(X) bound [" + c10BoundTypes[r.Intn(len(c10BoundTypes))] + "].\ndq(1). dq(/a).\n")
 	}
-	consts := []string{"1", "2", "/a", "/a/b", "\"s\"", "[1, 2]", "fn:pair(/a, 1)", "{/f: 1}", "[\"k\": 1]", "3.5", "X"}
+	consts := []string{"1", "2", "/a", "/a/b", "\"s\"", "[1, 2]", "fn:pair(/a, 1)", "{/f: 1}", "{/a: 1}", "{}", "{/a: 1, /b: /c}", "[\"k\": 1]", "3.5", "X", "[]", "[{/a: 1}]"}
 	for k := r.Intn(4); k > 0; k-- {
 		args := make([]string, ar)
 		for j := range args {
 			args[j] = consts[r.Intn(len(consts))]
+			if r.Intn(2) == 0 {
+				switch t := colTypes[j]; {
+				case strings.Contains(t, "List"):
+					args[j] = []string{"[1, 2]", "[]", "[/a]", "[{/a: 1}]"}[r.Intn(4)]
+				case strings.Contains(t, "Pair"):
+					args[j] = "fn:pair(/a, 1)"
+				case strings.Contains(t, "Map"):
+					args[j] = []string{"[\"k\": 1]", "[/k: /v]"}[r.Intn(2)]
+				case strings.Contains(t, "Struct") || strings.Contains(t, "TaggedUnion"):
+					args[j] = []string{"{/a: 1}", "{}", "{/f: 1}", "{/kind: /a, /f: 1}"}[r.Intn(4)]
+				case strings.Contains(t, "Tuple"):
+					args[j] = "fn:tuple(1, 2, 3)"
+				case strings.Contains(t, "Singleton"):
+					args[j] = "/a/b"
+				}
+			}
 		}
 		fact := "dp(" + strings.Join(args, ", ") + ")"
 		switch r.Intn(5) {
